@@ -95,6 +95,10 @@ fn err_of_name(n: &str) -> Option<Error> {
     })
 }
 
+pub fn err_text_pub(n: &str) -> &'static str {
+    err_text(n)
+}
+
 fn err_text(n: &str) -> &'static str {
     match n {
         "circ" => "#CIRC!",
